@@ -26,6 +26,7 @@ VARIANT_FLAGS = {
     "pic": ["-g", "-O1", "-fPIC"] + SAN,
     "o2": ["-g", "-O2"],
     "o2pic": ["-g", "-O2", "-fPIC"],
+    "o2lto": ["-g", "-O2", "-flto"],  # link-time optimisation: the optimiser sees across the library's translation units
 }
 
 # what cpusupport.sh finds on this host; C03 builds subsets of these
@@ -228,7 +229,7 @@ def link(out, objs, libs=(), wraps=(), fuzz=False, extra=()):
         # The harness links a hand-picked set of library files.  A change to the library may make one of them need another library file
         # (say, a wipe through insecure_memzero): retry with an archive of the whole library behind the object list, from which the
         # linker takes only the members that resolve something.
-        m = re.search(r"/obj/(asan|o2|pic|o2pic)/", " ".join(objs))
+        m = re.search(r"/obj/(asan|o2lto|o2pic|o2|pic)/", " ".join(objs))
         if m:
             try:
                 allobjs = build_lib(m.group(1))
